@@ -114,6 +114,7 @@ type Config struct {
 
 	MinMergePct         float64 `json:"minMergePct,omitempty"`
 	DeferredSort        bool    `json:"deferredSort,omitempty"`
+	SparseReads         bool    `json:"sparseReads,omitempty"` // harness: read only every 5th step (reads sort deferred segments)
 	CachePersisted      bool    `json:"cachePersisted,omitempty"`
 	MaxPreMergerBatches int     `json:"maxPreMerger,omitempty"`
 	MergeOp             bool    `json:"mergeOp,omitempty"`
